@@ -781,7 +781,7 @@ def binding_demo(ctx, tf_cards, ids, idx):
     raise tlc.MachineryError("binding demonstration: no suitable card")
 
 
-JUDGE_DENSITY = False  # the property lists chains, parameter names and constraints; the density is observed only
+JUDGE_DENSITY = True  # judged since the repair f6c52dc (the model a configuration determines must not depend on earlier loads)
 
 
 def density_observation(ctx):
